@@ -27,6 +27,11 @@ CHECKS = {
           "Generated search: tens of thousands of attacker streams per run (45% reaching the configured mechanism's own token parser, 30% ZMTP/2.0 greetings) x random segmentation; the oracle is 'no HandshakeComplete and no DeliverMessage, ever' except for the streams the reference automaton calls legitimate; stack-level spot checks on tcp/ipc in both roles.",
           "The attacker performs no real CURVE/Noise cryptography and never has the configured password; a PLAIN client has no secret to verify (WELCOME+READY is legitimate). Panics are C07's subject and only counted here.",
           "DESIGN.md §2 C06"),
+  "C07": ("fault_enumeration",
+          "mutation-based fuzzing driven by proptest: byte- and frame-aware mutators (length extremes, MORE runs, malformed READY / CURVE tokens, truncation, splices) over honest transcripts and over live engine pairs via a man in the middle; stand-alone parser fuzz with a reference-decoder differential; MAXMSGSIZE boundary; raw slow / malformed peers against real sockets",
+          "Fault injection over every handshake type and role: tens of thousands of mutated streams per run with the oracles 'no panic', 'read buffer within MAXMSGSIZE+9 plus one chunk', 'an error is terminal', 'limit accepted, limit+1 refused'; stack level adds the handshake-interval, slot-release and isolation oracles with real sockets.",
+          "CURVE/NOISE deep states are reached only through the live man-in-the-middle (no real attacker cryptography); buffer bound observed on the engine's accumulator; stack timings allow 2 s slack (session minimum lifespan is 1 s); MAXMSGSIZE below the handshake's own frame sizes is skipped (rzmq applies the limit to command frames, so no handshake completes).",
+          "DESIGN.md §2 C07"),
 }
 
 NOT_YET = {
